@@ -32,7 +32,7 @@ type c20Case struct {
 }
 
 var c20Ops = []string{"snap:pass", "snap:added", "snap:updated", "snap:failed", "json:invalid", "json:matcher", "json:added", "yaml:pass", "yaml:matcher",
-	"ssnap:added", "ssnap:failed", "sjson:updated", "skip", "skipf", "skipnow", "skipchild"}
+	"ssnap:added", "ssnap:failed", "sjson:updated", "skip", "skipf", "skipnow", "skipchild", "snapg:pass"}
 
 // c20Want: the outcome class of an op (off CI).
 func c20Want(op string, ci bool) string {
@@ -78,10 +78,14 @@ func c20Prepare(dir string, names []string, ops []string) {
 		}
 		api, k := op[:strings.Index(op, ":")], op[strings.Index(op, ":")+1:]
 		old, _ := c20Vals(api)
+		file := ""
+		if api == "snapg" {
+			api, file = "snap", "g"
+		}
 		switch k {
 		case "pass", "updated", "failed":
 			t := &vfT{name: names[i]}
-			vfCall{API: api, Val: old}.do(t, dir)
+			vfCall{API: api, Val: old, File: file}.do(t, dir)
 			t.end()
 		}
 	}
@@ -105,6 +109,9 @@ func c20Do(dir string, name, op string, t *vfT) string {
 		api, k := op[:strings.Index(op, ":")], op[strings.Index(op, ":")+1:]
 		old, neu := c20Vals(api)
 		cl := vfCall{API: api}
+		if api == "snapg" {
+			cl = vfCall{API: "snap", File: "g"}
+		}
 		switch k {
 		case "pass":
 			cl.Val = old
@@ -179,9 +186,11 @@ func c20Gen(c *vfCtx, emit func(c20Case)) {
 		for j := 0; j < 6; j++ {
 			w = append(w, c20Ops[(i+j*4)%len(c20Ops)])
 		}
-		for _, stale := range []int{0, 1, 2} {
+		for _, stale := range []int{0, 1, 2, 3} {
 			emit(c20Case{Kind: "seq", Ops: w, Stale: stale, Env: env})
 		}
+		emit(c20Case{Kind: "seq", Ops: []string{c20Ops[i], "snapg:pass"}, Stale: 3, Env: env})
+		emit(c20Case{Kind: "seq", Ops: []string{"snapg:pass", c20Ops[i], "snap:pass"}, Stale: 3, Env: env, Sort: true})
 		emit(c20Case{Kind: "seq", Ops: []string{c20Ops[i], c20Ops[i], c20Ops[i], c20Ops[i], c20Ops[i], c20Ops[i]}, Stale: 1, Env: env})
 	}
 	// concurrent: ops issued from 2..3 threads, every schedule within the bound
@@ -220,6 +229,12 @@ func c20Stale(dir string, stale int) {
 	}
 	if stale >= 2 {
 		os.WriteFile(filepath.Join(dir, "stale.snap"), vfRender([]vfEntry{{ID: "TestOld - 1", Body: "x"}}), 0o644)
+	}
+	if stale >= 3 {
+		// the SAME obsolete id in a second addressed file (g.snap, addressed by the op "snap2:pass")
+		f, _ := os.OpenFile(filepath.Join(dir, "g.snap"), os.O_APPEND|os.O_CREATE|os.O_WRONLY, 0o644)
+		f.Write(vfRender([]vfEntry{{ID: "TestGone - 1", Body: "gone too"}}))
+		f.Close()
 	}
 }
 
@@ -322,15 +337,31 @@ func c20Run(c *vfCtx, cs c20Case) {
 			visited = true
 		}
 	}
-	var staleT, staleF []string
-	if multi && cs.Stale >= 1 {
-		staleT = []string{"TestGone - 1"}
+	multiF, multiG := false, false
+	for _, op := range cs.Ops {
+		if strings.HasPrefix(op, "snapg:") {
+			multiG = true
+		} else if strings.HasPrefix(op, "snap:") || strings.HasPrefix(op, "json:") || strings.HasPrefix(op, "yaml:") {
+			multiF = true
+		}
 	}
-	if !multi && visited && cs.Stale >= 1 {
+	visited = visited || multiG
+	var staleT, staleF []string
+	if multiF && cs.Stale >= 1 {
+		staleT = append(staleT, "TestGone - 1")
+	}
+	if !multiF && visited && cs.Stale >= 1 {
 		staleF = append(staleF, "f.snap") // nobody addressed the multi-entry file in this run
 	}
 	if visited && cs.Stale >= 2 {
 		staleF = append(staleF, "stale.snap")
+	}
+	if cs.Stale >= 3 {
+		if multiG {
+			staleT = append(staleT, "TestGone - 1") // the same id, obsolete in a second file: listed twice
+		} else if visited {
+			staleF = append(staleF, "g.snap")
+		}
 	}
 	out := vfClean("", 1, cs.Sort)
 	c.count("transitions", 1)
